@@ -78,11 +78,13 @@ static std::unique_ptr<GeometryMetadata> make_gm(const Tree &t, const std::vecto
   }
   return gm;
 }
+static std::vector<int> g_in_uids, g_out_uids;   // attribute unique ids of the geometry (full codec path only)
 static void emit(const char *via, const Tree &t, const std::vector<Att> &atts, bool eok, bool dok, const Tree &o, const std::vector<Att> &oa,
                  const Bytes *bytes, bool has_model, bool model_eok, const std::vector<int> &model_bytes, bool has_long) {
   out.begin("Meta").s("via", via).raw("tree", jtree(t)).raw("atts", jatts(atts)).b("eok", eok).b("dok", dok).raw("out", jtree(o)).raw("outatts", jatts(oa));
   out.b("hasbytes", bytes != nullptr && !has_long && has_model);
   out.raw("bytes", (bytes && !has_long && has_model) ? jbytes(*bytes, false) : "[]");
+  out.arr("in_uids", g_in_uids).arr("out_uids", g_out_uids);
   out.b("hasmodel", has_model).b("model_eok", model_eok).arr("model_bytes", (has_long || !has_model) ? std::vector<int>{} : model_bytes).end();
 }
 static void read_gm(const GeometryMetadata *gm, Tree *o, std::vector<Att> *oa) {
@@ -112,6 +114,7 @@ static void direct_case(const Tree &t, const std::vector<Att> &atts, bool has_mo
   }
   bool has_long = tree_has_long(t);
   for (auto &a : atts) has_long = has_long || tree_has_long(a.t);
+  g_in_uids.clear(); g_out_uids.clear();
   emit("direct", t, atts, eok, dok, o, oa, &bytes, has_model, model_eok, model_bytes, has_long);
 }
 
@@ -126,7 +129,16 @@ static void codec_case(int via, const Tree &t, const std::vector<Att> &atts) {
   ga.Init(GeometryAttribute::POSITION, nullptr, 3, DT_INT32, false, 12, 0);
   const int aid = pc->AddAttribute(ga, true, np);
   for (int i = 0; i < np; ++i) { int32_t p[3] = {i, i * i, 7 - i}; pc->attribute(aid)->SetAttributeValue(AttributeValueIndex(i), p); }
-  if (!atts.empty()) pc->attribute(aid)->set_unique_id(atts[0].id);
+  // a second attribute so that unique ids and attribute order differ
+  GeometryAttribute gb;
+  gb.Init(GeometryAttribute::GENERIC, nullptr, 1, DT_UINT8, false, 1, 0);
+  const int bid = pc->AddAttribute(gb, true, np);
+  for (int i = 0; i < np; ++i) { uint8_t x = (uint8_t)(3 * i); pc->attribute(bid)->SetAttributeValue(AttributeValueIndex(i), &x); }
+  pc->attribute(bid)->set_unique_id(77);
+  if (!atts.empty()) pc->attribute(aid)->set_unique_id(atts[0].id); else pc->attribute(aid)->set_unique_id(9);
+  g_in_uids.clear(); g_out_uids.clear();
+  for (int a = 0; a < pc->num_attributes(); ++a) g_in_uids.push_back((int)pc->attribute(a)->unique_id());
+  std::sort(g_in_uids.begin(), g_in_uids.end());
   if (is_mesh) {
     Mesh *m = static_cast<Mesh *>(pc.get());
     Mesh::Face f; f[0] = PointIndex(0); f[1] = PointIndex(1); f[2] = PointIndex(2); m->AddFace(f);
@@ -144,8 +156,11 @@ static void codec_case(int via, const Tree &t, const std::vector<Att> &atts) {
     DecoderBuffer db;
     db.Init(eb.data(), eb.size());
     Decoder dec;
-    if (is_mesh) { auto r = dec.DecodeMeshFromBuffer(&db); if (r.ok() && r.value()->GetMetadata()) { dok = true; read_gm(r.value()->GetMetadata(), &o, &oa); } }
-    else { auto r = dec.DecodePointCloudFromBuffer(&db); if (r.ok() && r.value()->GetMetadata()) { dok = true; read_gm(r.value()->GetMetadata(), &o, &oa); } }
+    std::unique_ptr<PointCloud> res;
+    if (is_mesh) { auto r = dec.DecodeMeshFromBuffer(&db); if (r.ok()) res = std::move(r).value(); }
+    else { auto r = dec.DecodePointCloudFromBuffer(&db); if (r.ok()) res = std::move(r).value(); }
+    if (res && res->GetMetadata()) { dok = true; read_gm(res->GetMetadata(), &o, &oa); }
+    if (res) { for (int a = 0; a < res->num_attributes(); ++a) g_out_uids.push_back((int)res->attribute(a)->unique_id()); std::sort(g_out_uids.begin(), g_out_uids.end()); }
   }
   emit(names[via], t, atts, st.ok(), dok, o, oa, nullptr, false, false, {}, true);
 }
